@@ -2,6 +2,8 @@
 
 package search
 
+import "github.com/paulsonkoly/chess-3/transp"
+
 // This file is only compiled with the `verif` build tag. It exposes a digest
 // of the persistent search state to the verification harness in /verif and
 // adds no behaviour.
@@ -12,3 +14,7 @@ package search
 func (s *Search) VerifDigest() (tt, ranker uint64, gen int) {
 	return s.tt.VerifDigest(), s.ranker.VerifDigest(), int(s.gen)
 }
+
+// VerifTable gives the harness access to the transposition table the search
+// uses, so that it can be put into a chosen state before a search.
+func (s *Search) VerifTable() *transp.Table { return s.tt }
